@@ -24,6 +24,9 @@ type nameUniverse struct {
 	hashA []uint64   // real Hash of a[i]
 	hashB []uint64
 	phB   [][]uint64 // real PrefixHash of b[i]
+	// already[i]: the name also belonged to an earlier, completed universe (pairs of two such
+	// names are not counted as distinct cases again); nil = do not count this universe at all
+	already []bool
 	// matrices of real results (only when keepMatrix)
 	keepMatrix bool
 	cmp        []int8
@@ -34,7 +37,7 @@ type pairStats struct {
 	pairs, evals                   atomic.Int64
 	cmpLt, cmpEq, cmpGt            atomic.Int64
 	prefixTrue, equalTrue          atomic.Int64
-	collisions                     atomic.Int64
+	collisions, distinct           atomic.Int64
 	byType, byLen, byVal, byPrefix atomic.Int64
 }
 
@@ -136,10 +139,14 @@ func checkSingle(col *collector, phase, idx int64, o oname) {
 // pairRow evaluates all pairs (i, j≥i): a[i] against b[j] in both directions.
 func (u *nameUniverse) pairRow(col *collector, st *pairStats, smp *report.Samples, i int, eqOnly bool) {
 	n := len(u.o)
-	var lt, eqc, gt, pt, et, coll, bt, bl, bv, bp int64
+	var lt, eqc, gt, pt, et, coll, bt, bl, bv, bp, dist int64
 	for j := i; j < n; j++ {
 		checkPair(col, u, i, j, eqOnly, &lt, &eqc, &gt, &pt, &et, &coll, &bt, &bl, &bv, &bp)
+		if u.already != nil && !(u.already[i] && u.already[j]) && u.key[i] != u.key[j] {
+			dist++
+		}
 	}
+	st.distinct.Add(dist)
 	if smp != nil && i%97 == 3 && i+1 < n {
 		j := i + 1
 		oc, where := oCmp(u.o[i], u.o[j])
@@ -354,4 +361,18 @@ func (u *nameUniverse) hashCollisions() (int, string) {
 		}
 	}
 	return c, ex
+}
+
+// markSeen prepares distinct-case counting for this universe against the names of earlier ones.
+func (u *nameUniverse) markSeen(seen map[string]bool) {
+	u.already = make([]bool, len(u.o))
+	for i, k := range u.key {
+		u.already[i] = seen[k]
+	}
+}
+
+func (u *nameUniverse) addSeen(seen map[string]bool) {
+	for _, k := range u.key {
+		seen[k] = true
+	}
 }
